@@ -6,8 +6,9 @@ set -e
 cd "$(dirname "$0")/.."
 python3 tools/translate.py
 cd coq
-if [ ! -f Makefile ] || [ _CoqProject -nt Makefile ] || [ "$(find theories -name '*.v' -newer Makefile | head -1)" != "" ]; then
-  coq_makefile -f _CoqProject $(find theories -name '*.v' | sort) -o Makefile > /dev/null
+# the development = the files listed in coq/FILES (work in progress on disk that is not listed is not built, not audited)
+if [ ! -f Makefile ] || [ _CoqProject -nt Makefile ] || [ FILES -nt Makefile ]; then
+  coq_makefile -f _CoqProject $(grep -v '^#' FILES | grep . ) -o Makefile > /dev/null
 fi
 if [ $# -gt 0 ]; then
   timeout 3000 make -j16 "$@" 2>&1 | grep -v '^COQ\|^make\|^CLEAN' || true
